@@ -94,8 +94,10 @@ InitChain(h0) == [h |-> h0, bt |-> [p \in 0..h0 |-> p + 1], hist |-> [p \in 0..h
 InitState == [now |-> 2, ch |-> [c \in Chains |-> InitChain(1)]]
 
 Latest(S, c)      == MaxOf(S.ch[c].cons)
-\* time of counterparty block p (blocks before the run started, p < 0, are older than every tick)
-CpTime(S, c, p)   == IF p < 0 THEN 0 ELSE IF p > S.ch[Cp(c)].h THEN S.now + 1 ELSE S.ch[Cp(c)].bt[p]
+\* time of counterparty block p.  Blocks before the run started (p < 0) were all produced by the harness'
+\* set-up within the tick that ends one tick before tick 0, i.e. "at tick -1" for every comparison with
+\* integer tick times.
+CpTime(S, c, p)   == IF p < 0 THEN -1 ELSE IF p > S.ch[Cp(c)].h THEN S.now + 1 ELSE S.ch[Cp(c)].bt[p]
 Status(S, c, t)   ==
     IF S.ch[c].frozen THEN "Frozen"
     ELSE IF S.ch[c].cons = {} THEN "Expired"
